@@ -221,6 +221,10 @@ def _apply_recursively(mod_cls: Module | Class, processed: set[str]) -> None:
         return
     processed.add(mod_cls.canonical_path)
     if isinstance(mod_cls, Class):
+        # A class inheriting a dataclass is a dataclass too, whether or not it defines its own `__init__`.
+        with suppress(ValueError):
+            if any(_dataclass_decorator(parent.decorators) for parent in mod_cls.mro()):
+                mod_cls.labels.add("dataclass")
         if "__init__" not in mod_cls.members:
             _set_dataclass_init(mod_cls)
             _del_members_annotated_as_initvar(mod_cls)
